@@ -40,6 +40,9 @@ def main() -> int:
                     )
                     meta["runs"].append({"id": item["id"], "kind": "shipped", "scenario": scen.name, "lines": tr.n,
                                          "steps": item["steps"]})
+                elif item["kind"] == "match":
+                    info = runs.run_match(item["seed"], work, tmp, steps=item.get("steps", 6), focus=item.get("focus", "match"))
+                    meta["runs"].append({"id": item["id"], "kind": "match", **info})
                 elif item["kind"] == "model":
                     rp, tr = runs.run_model_schedule(item["spec"], work, tmp, item["id"])
                     meta["runs"].append({"id": item["id"], "kind": "model", "lines": tr.n, "steps": item["spec"]["steps"]})
